@@ -1,4 +1,5 @@
 import GdslModel.Lemmas.Di
+import GdslModel.Lemmas.Extra
 /-!
 # C01 — directed edges stay mirrored between source and target
 
@@ -45,5 +46,13 @@ theorem Di.leaf_iff (s : Store K E) (h : Mirror s) (u : K) :
 /-- non-vacuity: a reachable store with a self-loop and parallel edges meets the hypothesis -/
 example : Mirror (Di.run [Op.connect 0 0 7, .connect 0 1 1, .connect 0 1 2, .disconnect 0 0, .isolate 1] : Store Nat Nat) :=
   Di.run_mirror _
+
+/-- handshake: in a mirrored store, over a duplicate-free set of nodes that contains every key occurring
+    in a list of one of its members, the out-degrees and the in-degrees add up to the same number
+    (every edge is counted once at its source and once at its target) -/
+theorem Di.degree_balance (s : Store K E) (h : Mirror s) (ks : List K) (hnd : ks.Nodup)
+    (hc : ∀ k ∈ ks, ∀ p ∈ (s.get k).out ++ (s.get k).inn, p.1 ∈ ks) :
+    (ks.map fun k => (s.get k).out.length).sum = (ks.map fun k => (s.get k).inn.length).sum :=
+  degree_balance' s h ks hnd hc
 
 end G
